@@ -99,6 +99,10 @@ func (env *Env) evalCall(x *ast.CallExpr, st *State) Val {
 				c.decls.axiom(fn+"/first", fmt.Sprintf("(forall ((s %s) (k Int)) (! (=> (and (<= 0 k) (< k (len_%s s))) (and (<= 0 (%s s (select (arr_%s s) k))) (<= (%s s (select (arr_%s s) k)) k))) :pattern ((%s s (select (arr_%s s) k)))))", ss, ss, fn, ss, fn, ss, fn, ss))
 				c.trust("indexof(s, x) is the first index of x in s or -1 (definitional axioms)")
 				return intVal(app(fn, sl.T, xv.T))
+			case "hasprefix":
+				a := env.eval(x.Args[0], st)
+				b := env.eval(x.Args[1], st)
+				return specBytesHasPrefix(env, nil, []Val{a, b}, st, x)
 			case "same":
 				a := env.eval(x.Args[0], st)
 				b := env.eval(x.Args[1], st)
@@ -987,18 +991,20 @@ func (env *Env) havocFrame(fi *FuncInfo, m string, ce *Env, st *State) {
 		c.unsupported("bad modifies clause %q", m)
 		return
 	}
-	// Type.f : every object of that type
-	if tn, ok := ce.lookupName(base).(*types.TypeName); ok {
-		if _, isBound := ce.bound[base]; !isBound {
-			ssort := ce.sortOf(tn.Type())
-			for _, fn := range c.structFields(ssort, field) {
-				key := ssort + "." + fn
-				srt := c.fieldSortByKey(ce, tn.Type(), fn)
-				ce.heapTerm(st, key, srt)
-				st.heap[key] = c.fresh("H'"+key, fmt.Sprintf("(Array Int %s)", srt))
+	// Type.f / pkg.Type.f : every object of that type
+	if tt := ce.frameType(base); tt != nil {
+		ssort := ce.sortOf(tt)
+		for _, fn := range c.structFields(ssort, field) {
+			key := ssort + "." + fn
+			srt := c.fieldSortByKey(ce, tt, fn)
+			if gt := ce.ghostFieldType(types.NewPointer(tt), fn); gt != nil && srt == "Int" && !c.hasRealField(tt, fn) {
+				key = ssort + ".$" + fn
+				srt = ce.sortOf(gt)
 			}
-			return
+			ce.heapTerm(st, key, srt)
+			st.heap[key] = c.fresh("H'"+key, fmt.Sprintf("(Array Int %s)", srt))
 		}
+		return
 	}
 	ex, err := parseExprCached(base)
 	if err != nil {
@@ -1049,6 +1055,9 @@ func (c *Ctx) structFields(ssort, field string) []string {
 				out = append(out, st.Field(i).Name())
 			}
 		}
+	}
+	if ts := c.e.typeSpecForSort(ssort); ts != nil {
+		out = append(out, sortedKeys(ts.GhostFields)...)
 	}
 	return out
 }
@@ -1484,4 +1493,60 @@ func (env *Env) doYield(args []Val, st *State, call *ast.CallExpr) Val {
 	cont := c.fresh("cont", "Bool")
 	st.ghost["stopped_"] = Val{T: or(stopped.T, not(cont)), Ty: tBool}
 	return boolVal(cont)
+}
+
+// frameType resolves "Type" or "pkg.Type" in a modifies clause.
+func (env *Env) frameType(base string) types.Type {
+	if _, isBound := env.bound[base]; isBound {
+		return nil
+	}
+	if tn, ok := env.lookupName(base).(*types.TypeName); ok {
+		return tn.Type()
+	}
+	if pkg, name, ok := strings.Cut(base, "."); ok && !strings.Contains(name, ".") {
+		if pn, ok := env.lookupName(pkg).(*types.PkgName); ok {
+			if tn, ok := pn.Imported().Scope().Lookup(name).(*types.TypeName); ok {
+				return tn.Type()
+			}
+		}
+		// any package of that name reachable from the loaded packages
+		for _, p := range env.c.e.pkgs {
+			if p.Name == pkg {
+				if tn, ok := p.Types.Scope().Lookup(name).(*types.TypeName); ok {
+					return tn.Type()
+				}
+			}
+			for _, ip := range p.Types.Imports() {
+				if ip.Name() == pkg {
+					if tn, ok := ip.Scope().Lookup(name).(*types.TypeName); ok {
+						return tn.Type()
+					}
+				}
+			}
+		}
+		// package imported by the code file but not by the contract file
+		if env.pkg != nil && env.pkg.types != nil {
+			for _, ip := range env.pkg.types.Imports() {
+				if ip.Name() == pkg {
+					if tn, ok := ip.Scope().Lookup(name).(*types.TypeName); ok {
+						return tn.Type()
+					}
+				}
+			}
+		}
+	}
+	return nil
+}
+
+func (c *Ctx) hasRealField(t types.Type, name string) bool {
+	_, sty, _ := structOf(t)
+	if sty == nil {
+		return false
+	}
+	for i := 0; i < sty.NumFields(); i++ {
+		if sty.Field(i).Name() == name {
+			return true
+		}
+	}
+	return false
 }
